@@ -583,4 +583,88 @@ theorem dance_asciiText (s : List Char) (h : asciiText s = true) :
   rw [latin1Enc_asciiText s h, ← utf8Enc_asciiText s h]
   simp [Py.decodeReplace_utf8Enc]
 
+/-! ### the `Set-Cookie` header splits at `; ` into exactly the parts `dump_cookie` joined -/
+
+/-- what a user agent does first with a `Set-Cookie` header: split it at `; ` -/
+def splitSemi : List Char → List (List Char)
+  | [] => [[]]
+  | ';' :: ' ' :: t => [] :: splitSemi t
+  | c :: t =>
+    match splitSemi t with
+    | [] => [[c]]
+    | h :: r => (c :: h) :: r
+
+theorem splitSemi_ne_nil (s : List Char) : splitSemi s ≠ [] := by
+  fun_induction splitSemi s <;> simp_all
+
+theorem splitSemi_cons (c : Char) (t : List Char) (hc : c ≠ ';') :
+    splitSemi (c :: t) = (match splitSemi t with
+      | [] => [[c]]
+      | h :: r => (c :: h) :: r) := by
+  conv => lhs; unfold splitSemi
+  split
+  · simp_all
+  · rename_i heq; simp only [List.cons.injEq] at heq; exact absurd heq.1 hc
+  · rename_i c' t' _ heq
+    simp only [List.cons.injEq] at heq
+    obtain ⟨rfl, rfl⟩ := heq
+    rfl
+
+theorem splitSemi_noSemi (p : List Char) (hp : ∀ c ∈ p, c ≠ ';') : splitSemi p = [p] := by
+  induction p with
+  | nil => rfl
+  | cons c t ih =>
+    have := ih (fun x hx => hp x (by simp [hx]))
+    rw [splitSemi_cons c t (hp c (by simp)), this]
+
+theorem splitSemi_append (p rest : List Char) (hp : ∀ c ∈ p, c ≠ ';') :
+    splitSemi (p ++ ';' :: ' ' :: rest) = p :: splitSemi rest := by
+  induction p with
+  | nil => simp [splitSemi]
+  | cons c t ih =>
+    have := ih (fun x hx => hp x (by simp [hx]))
+    simp only [List.cons_append]
+    rw [splitSemi_cons c _ (hp c (by simp)), this]
+
+theorem splitSemi_intercalate (parts : List (List Char)) (hne : parts ≠ [])
+    (hp : ∀ p ∈ parts, ∀ c ∈ p, c ≠ ';') :
+    splitSemi (List.intercalate "; ".toList parts) = parts := by
+  induction parts with
+  | nil => exact absurd rfl hne
+  | cons p t ih =>
+    cases t with
+    | nil => simpa [List.intercalate] using splitSemi_noSemi p (hp p (by simp))
+    | cons q r =>
+      have hrec := ih (by simp) (fun x hx => hp x (by simp [hx]))
+      have : List.intercalate "; ".toList (p :: q :: r) =
+          p ++ ';' :: ' ' :: List.intercalate "; ".toList (q :: r) := by
+        simp [List.intercalate, List.intersperse]
+      rw [this, splitSemi_append p _ (hp p (by simp)), hrec]
+
+theorem nat_toString_digits (n : Nat) (c : Char) (hc : c ∈ (toString n).toList) : c.isDigit = true := by
+  have : (toString n).toList = Nat.toDigits 10 n := by
+    show (Nat.repr n).toList = _
+    exact Nat.toList_repr
+  rw [this] at hc
+  exact Nat.isDigit_of_mem_toDigits (by decide) (by decide) hc
+
+theorem intText_no_semi (i : Int) : ∀ c ∈ intText i, c ≠ ';' := by
+  intro c hc h
+  subst h
+  unfold intText at hc
+  cases i with
+  | ofNat n =>
+    have : (toString (Int.ofNat n)) = toString n := by simp [toString, Int.repr]
+    rw [this] at hc
+    have := nat_toString_digits n ';' hc
+    simp [Char.isDigit] at this
+  | negSucc n =>
+    have : (toString (Int.negSucc n)) = "-" ++ toString (n+1) := by simp [toString, Int.repr]
+    rw [this] at hc
+    simp only [String.toList_append, List.mem_append] at hc
+    rcases hc with hc | hc
+    · simp at hc
+    · have := nat_toString_digits (n+1) ';' hc
+      simp [Char.isDigit] at this
+
 end Wz.Cookie
